@@ -65,6 +65,12 @@ type Term struct {
 	id      int    // per-context number (for printing)
 	ev      uint64 // memoised evaluation
 	evGen   int
+	Idx     int // variables: index into Ctx.Vars
+	// cached variable summary: VarN = 0, 1 or 2 (two or more); VarV the single variable
+	VarV   *Term
+	VarN   int8
+	varOK  bool
+	defGen int // solver: defined in the scope numbered defGen
 }
 
 func (t *Term) IsBool() bool  { return t.W == 0 }
@@ -81,8 +87,9 @@ type key struct {
 // Ctx interns terms (so that equal terms are pointer-equal within one path)
 // and owns the variable list of the path.
 type Ctx struct {
-	tab   map[key]*Term
+	tab   map[uint64]*Term
 	Vars  []*Term
+	vals  []uint64 // current model, by variable index
 	next  int
 	T, F  *Term
 	evGen int
@@ -90,7 +97,7 @@ type Ctx struct {
 }
 
 func NewCtx() *Ctx {
-	c := &Ctx{tab: map[key]*Term{}, evGen: 1, Model: map[string]uint64{}}
+	c := &Ctx{tab: make(map[uint64]*Term, 256), evGen: 1, Model: map[string]uint64{}}
 	c.T = c.mk(OpTrue, 0, nil, nil, nil, 0, "")
 	c.F = c.mk(OpFalse, 0, nil, nil, nil, 0, "")
 	return c
@@ -102,10 +109,6 @@ func mix(h uint64, x uint64) uint64 {
 }
 
 func (c *Ctx) mk(op Op, w int, a, b, cc *Term, k uint64, name string) *Term {
-	ky := key{op, w, a, b, cc, k, name}
-	if t, ok := c.tab[ky]; ok {
-		return t
-	}
 	h := mix(uint64(op)+1, uint64(w))
 	h = mix(h, k)
 	for i := 0; i < len(name); i++ {
@@ -118,10 +121,18 @@ func (c *Ctx) mk(op Op, w int, a, b, cc *Term, k uint64, name string) *Term {
 			h = mix(h, 7)
 		}
 	}
-	t := &Term{Op: op, W: w, A: a, B: b, C: cc, K: k, Name: name, H: h, id: c.next}
-	c.next++
-	c.tab[ky] = t
-	return t
+	for probe := h; ; probe++ {
+		t, ok := c.tab[probe]
+		if !ok {
+			t = &Term{Op: op, W: w, A: a, B: b, C: cc, K: k, Name: name, H: h, id: c.next}
+			c.next++
+			c.tab[probe] = t
+			return t
+		}
+		if t.Op == op && t.W == w && t.A == a && t.B == b && t.C == cc && t.K == k && t.Name == name {
+			return t
+		}
+	}
 }
 
 func mask(w int) uint64 {
@@ -153,12 +164,13 @@ func (c *Ctx) Var(w int, name string) *Term {
 	if w == 0 {
 		op = OpBoolVar
 	}
-	ky := key{op, w, nil, nil, nil, 0, name}
-	if t, ok := c.tab[ky]; ok {
-		return t
-	}
+	n := c.next
 	t := c.mk(op, w, nil, nil, nil, 0, name)
-	c.Vars = append(c.Vars, t)
+	if c.next != n { // newly created
+		t.Idx = len(c.Vars)
+		c.Vars = append(c.Vars, t)
+		c.vals = append(c.vals, c.Model[name])
+	}
 	return t
 }
 
@@ -555,7 +567,60 @@ func (c *Ctx) Concat(hi, lo *Term) *Term {
 // NewModel installs a model (missing variables read as 0).
 func (c *Ctx) SetModel(m map[string]uint64) {
 	c.Model = m
+	for i, v := range c.Vars {
+		c.vals[i] = m[v.Name]
+	}
 	c.evGen++
+}
+
+// SetVar overrides one variable of the current model (also in the model map).
+func (c *Ctx) SetVar(v *Term, x uint64) {
+	c.vals[v.Idx] = x
+	c.evGen++
+}
+
+// VarVal is the current model's value of v.
+func (c *Ctx) VarVal(v *Term) uint64 { return c.vals[v.Idx] }
+
+// ModelMap snapshots the current model as a name->value map, with v set to x when v != nil.
+func (c *Ctx) ModelMap(v *Term, x uint64) map[string]uint64 {
+	m := make(map[string]uint64, len(c.Vars))
+	for i, t := range c.Vars {
+		m[t.Name] = c.vals[i]
+	}
+	if v != nil {
+		m[v.Name] = x
+	}
+	return m
+}
+
+// VarsOf returns (single variable, count) where count is 0, 1 or 2 (= two or more).
+func (t *Term) VarsOf() (*Term, int) {
+	if t.varOK {
+		return t.VarV, int(t.VarN)
+	}
+	var v *Term
+	n := 0
+	switch t.Op {
+	case OpBVVar, OpBoolVar:
+		v, n = t, 1
+	default:
+		for _, x := range [3]*Term{t.A, t.B, t.C} {
+			if x == nil {
+				continue
+			}
+			xv, xn := x.VarsOf()
+			switch {
+			case xn == 0:
+			case n == 0:
+				v, n = xv, xn
+			case xn >= 2 || n >= 2 || xv != v:
+				v, n = nil, 2
+			}
+		}
+	}
+	t.VarV, t.VarN, t.varOK = v, int8(n), true
+	return v, n
 }
 
 // Eval evaluates t under the current model. Booleans are 0/1.
@@ -574,13 +639,13 @@ func (c *Ctx) Eval(t *Term) uint64 {
 	case OpBVConst:
 		r = t.K
 	case OpBVVar:
-		r = c.Model[t.Name] & mask(t.W)
+		r = c.vals[t.Idx] & mask(t.W)
 	case OpTrue:
 		r = 1
 	case OpFalse:
 		r = 0
 	case OpBoolVar:
-		r = c.Model[t.Name] & 1
+		r = c.vals[t.Idx] & 1
 	case OpNot:
 		r = 1 - c.Eval(t.A)
 	case OpAnd:
@@ -620,3 +685,6 @@ func (c *Ctx) Eval(t *Term) uint64 {
 }
 
 var _ = bits.Len
+
+// Touch invalidates memoised evaluations after the model map was edited in place.
+func (c *Ctx) Touch() { c.evGen++ }
